@@ -316,7 +316,8 @@ SHUTTLE_PROPS = {
                        "wall-clock limit (max_time) is not modelled: only iteration budgets"]},
     "C01": {"stages": [S("kernel_rand", 10, 100), S("mutex", 8, 100), S("condvar", 8, 100), S("mpsc", 8, 100),
                        S("rwlock", 6, 80), S("park", 8, 80), S("barrier", 6, 80), S("once", 6, 80),
-                       S("sem_fair", 6, 80), S("sem_unfair", 6, 80), S("corpus_deadlock", 0, 0), S("corpus_locks", 0, 0)],
+                       S("sem_fair", 6, 80), S("sem_unfair", 6, 80), S("tls", 8, 80), S("statics", 6, 60), S("async", 6, 60),
+                       S("corpus_deadlock", 0, 0), S("corpus_locks", 0, 0)],
             "kinds": {"replay-mismatch", "trace-rejected", "nondeterminism", "harness-crash", "tlc-error"},
             "assume": ["schedulers: random, urw, dfs (with random data), round-robin, pct(depth 3), fixed seeds from VERIF_SEED",
                        "replayed through ReplayScheduler::new_from_encoded (with/without line breaks), shuttle::replay and shuttle::replay_from_file"]},
